@@ -410,7 +410,7 @@ def clause_f(c: Check):
             else:
                 given = K(variant)
             insts = it.instantiate(cls, State(), {pnames[0]: given})
-            c.require(len(insts) >= 1, 'C13-f: constructor of %s has no path' % key)
+            c.require(len(insts) == 1, 'C13-f: constructor of %s has %d paths' % (key, len(insts)))
             obj, st = insts[0]
             visitor = Sym('visitor')
             ok_all = True
